@@ -10,20 +10,24 @@
 EXTENDS Witness
 
 CONSTANT TraceFile
-VARIABLES i, hist
+VARIABLES i, hist, memo   \* memo: final state of phase 0 of a multi-phase run (C12)
 
 Trace == ndJsonDeserialize(TraceFile)
-tvars == <<stored, last, ctr, hist, i>>
+tvars == <<stored, last, ctr, hist, i, memo>>
 Ev == Trace[i]
 
 NoneAll  == [l \in Logs |-> None]
 ZeroCtr  == [l \in Logs |-> Ctr0]
 NoHist   == [l \in Logs |-> <<>>]
 
-TraceInit == stored = NoneAll /\ last = [a |-> "init"] /\ ctr = ZeroCtr /\ hist = NoHist /\ i = 1
+NoMemo == [none |-> TRUE]
+TraceInit == stored = NoneAll /\ last = [a |-> "init"] /\ ctr = ZeroCtr /\ hist = NoHist /\ i = 1 /\ memo = NoMemo
 
 Reset == /\ Ev.e = "reset"
-         /\ stored' = NoneAll /\ last' = [a |-> "reset"] /\ ctr' = ZeroCtr /\ hist' = NoHist
+         /\ stored' = NoneAll /\ last' = [a |-> "reset"] /\ hist' = NoHist
+         \* later phases of a run share the origins (hence the process-global counters) of phase 0
+         /\ ctr' = IF Ev.phase > 0 THEN ctr ELSE ZeroCtr
+         /\ memo' = IF Ev.phase > 0 THEN memo ELSE NoMemo
          /\ i' = i + 1
 
 ObsUpdate ==
@@ -33,25 +37,37 @@ ObsUpdate ==
     /\ ctr' = [l \in Logs |-> Ev.ctr[l]]
     /\ hist' = IF Ev.v = "Accept" /\ Ev.log \in Logs
                THEN [hist EXCEPT ![Ev.log] = Append(@, Ev.retcp)] ELSE hist
+    /\ memo' = memo
     /\ i' = i + 1
 
 ObsGet ==
     /\ Ev.e = "get"
     /\ last' = [a |-> "get", log |-> Ev.log, val |-> Ev.val]
-    /\ UNCHANGED <<stored, ctr, hist>>
+    /\ UNCHANGED <<stored, ctr, hist, memo>>
     /\ i' = i + 1
 
 SeqToSet(s) == {s[j] : j \in DOMAIN s}
 ObsGetLogs ==
     /\ Ev.e = "getlogs"
     /\ last' = [a |-> "getlogs", val |-> SeqToSet(Ev.val)]
+    /\ UNCHANGED <<stored, ctr, hist, memo>>
+    /\ i' = i + 1
+
+\* a request for a syntactically odd id over HTTP (state is not touched)
+ObsOdd == Ev.e = "getodd" /\ last' = [a |-> "getodd"] /\ UNCHANGED <<stored, ctr, hist, memo>> /\ i' = i + 1
+
+\* end of a phase: phase 0 (the interleaved history) is remembered, later phases (one log's history alone) are compared
+ObsFinal ==
+    /\ Ev.e = "final"
+    /\ last' = [a |-> "final"]
+    /\ memo' = IF Ev.phase = 0 THEN [stored |-> Ev.stored, fp |-> Ev.fp] ELSE memo
     /\ UNCHANGED <<stored, ctr, hist>>
     /\ i' = i + 1
 
 \* a step the concretiser could not render under the current embedding (see world.Coincides)
-ObsSkip == Ev.e = "skip" /\ UNCHANGED <<stored, last, ctr, hist>> /\ i' = i + 1
+ObsSkip == Ev.e = "skip" /\ UNCHANGED <<stored, last, ctr, hist, memo>> /\ i' = i + 1
 
-TraceNext == i <= Len(Trace) /\ (Reset \/ ObsUpdate \/ ObsGet \/ ObsGetLogs \/ ObsSkip)
+TraceNext == i <= Len(Trace) /\ (Reset \/ ObsUpdate \/ ObsGet \/ ObsGetLogs \/ ObsSkip \/ ObsOdd \/ ObsFinal)
 TraceSpec == TraceInit /\ [][TraceNext]_tvars
 
 -----------------------------------------------------------------------------
@@ -114,8 +130,28 @@ MonGet ==
 MonGetLogs ==
     Check("C16", "LogListExact", Ev.ok /\ ReadExactStep(stored, stored', last'))
 
+\* C16: an odd id yields 404, or - when its cleaned path names a log that has a checkpoint - that log's bytes;
+\* never another log's checkpoint, never anything else
+MonOdd ==
+    Check("C16", "OddId",
+          /\ Ev.first \in {200, 404, 301, 308}
+          /\ (Ev.first \in {301, 308} => Ev.locok)
+          /\ Ev.final \in {200, 404}
+          /\ (Ev.final = 200 => Ev.names \in Logs /\ Ev.served = Ev.names /\ stored[Ev.names] # None)
+          /\ (Ev.first = 200 => Ev.final = 200))
+
+\* C12: the history of one log run alone ends in exactly the state it reaches when interleaved with the others
+MonFinal ==
+    Check("C12", "AloneEqualsInterleaved",
+          /\ \A l \in Logs : Ev.stored[l] = stored[l]
+          /\ (Ev.phase > 0 /\ Ev.only \in Logs =>
+                /\ Ev.stored[Ev.only] = memo.stored[Ev.only] /\ Ev.fp[Ev.only] = memo.fp[Ev.only]
+                /\ \A l \in Logs \ {Ev.only} : Ev.stored[l] = None))
+
 Monitor ==
     CASE Ev.e = "update"  -> MonUpdate
+      [] Ev.e = "getodd"  -> MonOdd
+      [] Ev.e = "final"   -> MonFinal
       [] Ev.e = "get"     -> MonGet
       [] Ev.e = "getlogs" -> MonGetLogs
       [] OTHER            -> TRUE
